@@ -159,6 +159,32 @@ def minimise(sc, clause, budget=400):
     return sc
 
 
+def _min_job(args):
+    sc, clause = args
+    faulthandler.enable()
+    faulthandler.dump_traceback_later(RUN_WATCHDOG_S * 2, exit=True)
+    try:
+        return minimise(sc, clause)
+    finally:
+        faulthandler.cancel_dump_traceback_later()
+
+
+def minimise_many(vios, jobs):
+    """Minimise several violations in parallel worker processes."""
+    if not vios:
+        return []
+    ctx = multiprocessing.get_context("fork")
+    out = []
+    with ProcessPoolExecutor(max_workers=max(1, min(jobs, len(vios))), mp_context=ctx) as ex:
+        futs = [ex.submit(_min_job, (v["scenario"], v["clause"])) for v in vios]
+        for v, f in zip(vios, futs):
+            try:
+                out.append(f.result())
+            except Exception:
+                out.append(v["scenario"])
+    return out
+
+
 def fresh_replay(path):
     """Execute a replay file in a fresh interpreter; returns its JSON report."""
     env = dict(os.environ)
